@@ -1,19 +1,1710 @@
-//! Engine `value` — not built yet (stub).
+//! Engine `value` (C19): the real `types` module (VarInt, Blob, DataType compare / hash / cast / serialize) and the
+//! B+tree key comparison against the Lean model `AxVerif.Value`.
+//!
+//! Case syntax (one per line):
+//!   zz <i64> | uzz <u64> | vi.enc <i64> | vi.dec <hex> | vi.read <hex> | vi.cmp <hex> <hex>
+//!   blob.enc <hex> | blob.dec <hex> | blob.cmp <hex> <hex>
+//!   ser <val> | wr <val> <cursor> <extra> | de <kind> <cursor> <hexbuf> | cast <val> <kind>
+//!   key <kind,kind…> <search val,val…> <cell val,val…>      (B+tree key comparison, CellComparator)
+//!   sql <kind> <val,val…>      (one-column table through the public Database API: ORDER BY, DISTINCT, GROUP BY, IN, =, <, >=, PK)
+//!   pair <a> <b> | hash <val> | laws <v1> [<v2> [<v3> [<v4>]]]
+//! Values: `n`, `b:0|1`, `i:<i32>`, `I:<i64>`, `u:<u32>`, `U:<u64>`, `f:<f32 bits>`, `d:<f64 bits>`, `x:<hex|->`.
 use super::{Case, Engine, Tier};
 use crate::rng::Rng;
+use crate::util::{hex, hex_or_dash, unhex};
+use axmosdb::types::{
+    Blob, DataType, DataTypeKind, DataTypeRef, Float32, Float64, Int32, Int64, SerializationError, TypeSystemError,
+    UInt32, UInt64,
+};
+use axmosdb::verif::value as hooks;
+use std::cmp::Ordering;
 
 pub struct ValueEngine;
 
-impl Engine for ValueEngine {
-    fn gen_cases(&self, _rng: &mut Rng, _tier: Tier) -> Vec<Case> {
-        Vec::new()
-    }
-    fn exec(&mut self, _line: &str) -> String {
-        "unimplemented".into()
+thread_local! {
+    /// lazily created comparator; its pager is backed by a scratch file that is unlinked right after creation
+    /// (the pager is only touched for overflow cells, which single keys of this size never are)
+    static KEYCMP: std::cell::RefCell<Option<hooks::KeyComparator>> = const { std::cell::RefCell::new(None) };
+}
+
+fn with_key_comparator<T>(f: impl FnOnce(&hooks::KeyComparator) -> T) -> T {
+    KEYCMP.with(|slot| {
+        let mut slot = slot.borrow_mut();
+        if slot.is_none() {
+            let nanos = std::time::SystemTime::now().duration_since(std::time::UNIX_EPOCH).unwrap().as_nanos() as u64;
+            let dir = std::env::temp_dir().join(format!("axv-c19-{}-{:x}", std::process::id(), nanos));
+            std::fs::create_dir_all(&dir).expect("scratch dir");
+            let kc = hooks::KeyComparator::new(dir.join("keys.db")).expect("scratch pager");
+            let _ = std::fs::remove_dir_all(&dir);
+            *slot = Some(kc);
+        }
+        f(slot.as_ref().unwrap())
+    })
+}
+
+fn io_class(e: &std::io::Error) -> &'static str {
+    let m = e.to_string();
+    if m.contains("Cannot compare null keys") {
+        "nullkey"
+    } else if e.kind() == std::io::ErrorKind::InvalidInput {
+        "build"
+    } else {
+        "io"
     }
 }
 
-/// Content of `lean/AxVerif/Generated/<Engine>.lean`, if this engine extracts constants from the code.
+fn show_cmp_result(r: &std::io::Result<Ordering>) -> String {
+    match r {
+        Ok(o) => ord_name(*o).to_string(),
+        Err(e) => format!("err {}", io_class(e)),
+    }
+}
+
+impl ValueEngine {
+    fn exec_key(&mut self, ks: &str, tv: &str, cv: &str) -> String {
+        let kinds: Option<Vec<DataTypeKind>> = ks.split(',').map(parse_kind).collect();
+        let t: Option<Vec<DataType>> = tv.split(',').map(parse_value).collect();
+        let c: Option<Vec<DataType>> = cv.split(',').map(parse_value).collect();
+        let (Some(kinds), Some(t), Some(c)) = (kinds, t, c) else { return "bad-op".into() };
+        if kinds.is_empty() || t.len() != kinds.len() || c.len() != kinds.len() {
+            return "bad-op".into();
+        }
+        match with_key_comparator(|kc| kc.compare(&kinds, &t, &c)) {
+            Err(e) => format!("err {}", io_class(&e)),
+            Ok(r) => {
+                let r1 = show_cmp_result(&r.tuple_mode);
+                match r.bare_mode {
+                    Some(b) => {
+                        let r2 = show_cmp_result(&b);
+                        if r1 == r2 { r1 } else { format!("MODEDIFF tuple={} bare={}", r1, r2) }
+                    }
+                    None => r1,
+                }
+            }
+        }
+    }
+}
+
+fn ser_err(e: &SerializationError) -> &'static str {
+    match e {
+        SerializationError::InvalidVarIntPrefix => "prefix",
+        SerializationError::UnexpectedEof => "eof",
+        SerializationError::NotSupported => "unsupported",
+        SerializationError::BytemuckError(_) => "bytemuck",
+        SerializationError::Io(_) => "io",
+        SerializationError::Rkyv(_) => "rkyv",
+        SerializationError::Other(_) => "other",
+    }
+}
+
+fn ord_name(o: Ordering) -> &'static str {
+    match o {
+        Ordering::Less => "lt",
+        Ordering::Equal => "eq",
+        Ordering::Greater => "gt",
+    }
+}
+
+const KINDS: [(&str, DataTypeKind); 9] = [
+    ("null", DataTypeKind::Null),
+    ("bool", DataTypeKind::Bool),
+    ("int", DataTypeKind::Int),
+    ("bigint", DataTypeKind::BigInt),
+    ("uint", DataTypeKind::UInt),
+    ("biguint", DataTypeKind::BigUInt),
+    ("float", DataTypeKind::Float),
+    ("double", DataTypeKind::Double),
+    ("blob", DataTypeKind::Blob),
+];
+
+fn parse_kind(s: &str) -> Option<DataTypeKind> {
+    KINDS.iter().find(|(n, _)| *n == s).map(|(_, k)| *k)
+}
+
+fn parse_value(s: &str) -> Option<DataType> {
+    if s == "n" {
+        return Some(DataType::Null);
+    }
+    let (t, v) = s.split_once(':')?;
+    Some(match t {
+        "b" => match v {
+            "0" => DataType::Bool(false.into()),
+            "1" => DataType::Bool(true.into()),
+            _ => return None,
+        },
+        "i" => DataType::Int(Int32(v.parse().ok()?)),
+        "I" => DataType::BigInt(Int64(v.parse().ok()?)),
+        "u" => DataType::UInt(UInt32(v.parse().ok()?)),
+        "U" => DataType::BigUInt(UInt64(v.parse().ok()?)),
+        "f" => DataType::Float(Float32(f32::from_bits(v.parse().ok()?))),
+        "d" => DataType::Double(Float64(f64::from_bits(v.parse().ok()?))),
+        "x" => DataType::Blob(Blob::from_unencoded_slice(&unhex(v)?)),
+        _ => return None,
+    })
+}
+
+fn show_value(v: &DataType) -> String {
+    match v {
+        DataType::Null => "n".into(),
+        DataType::Bool(b) => format!("b:{}", b.value() as u8),
+        DataType::Int(i) => format!("i:{}", i.0),
+        DataType::BigInt(i) => format!("I:{}", i.0),
+        DataType::UInt(i) => format!("u:{}", i.0),
+        DataType::BigUInt(i) => format!("U:{}", i.0),
+        DataType::Float(f) => format!("f:{}", f.0.to_bits()),
+        DataType::Double(f) => format!("d:{}", f.0.to_bits()),
+        DataType::Blob(b) => match b.data() {
+            Ok(d) => format!("x:{}", hex_or_dash(d)),
+            Err(_) => format!("xraw:{}", hex_or_dash(b.as_ref())),
+        },
+    }
+}
+
+/// Bit-exact identity of two values (not `==`, which is what is under test).
+fn same_value(a: &DataType, b: &DataType) -> bool {
+    show_value(a) == show_value(b)
+}
+
+/// A byte buffer whose base address is 8-aligned (bytemuck refuses to reinterpret unaligned memory).
+struct AlignedBuf {
+    words: Vec<u64>,
+    len: usize,
+}
+
+impl AlignedBuf {
+    fn zeroed(len: usize) -> Self {
+        AlignedBuf { words: vec![0u64; len.div_ceil(8) + 1], len }
+    }
+    fn from(bytes: &[u8]) -> Self {
+        let mut b = Self::zeroed(bytes.len());
+        b.as_mut().copy_from_slice(bytes);
+        b
+    }
+    fn as_ref(&self) -> &[u8] {
+        &bytemuck_bytes(&self.words)[..self.len]
+    }
+    fn as_mut(&mut self) -> &mut [u8] {
+        let len = self.len;
+        let p = self.words.as_mut_ptr() as *mut u8;
+        // SAFETY: `words` owns at least `len` initialised bytes
+        unsafe { std::slice::from_raw_parts_mut(p, len) }
+    }
+}
+
+fn bytemuck_bytes(w: &[u64]) -> &[u8] {
+    // SAFETY: any u64 slice is a valid byte slice of 8× the length
+    unsafe { std::slice::from_raw_parts(w.as_ptr() as *const u8, w.len() * 8) }
+}
+
+fn align_up(c: usize, a: usize) -> usize {
+    (c + a - 1) / a * a
+}
+
+fn deser(kind: DataTypeKind, buf: &AlignedBuf, cursor: usize) -> Result<(DataType, usize), String> {
+    match kind.deserialize(buf.as_ref(), cursor) {
+        Ok((r, c)) => match r.to_owned() {
+            Some(v) => Ok((v, c)),
+            None => Err("ok-null".into()),
+        },
+        Err(e) => Err(format!("err {}", ser_err(&e))),
+    }
+}
+
+/// A `Hasher` that records the byte stream it is fed (what `Hash for DataType` writes), so that hash equality is
+/// observed independently of any particular hash function.
+#[derive(Default)]
+struct Recorder(Vec<u8>);
+
+impl std::hash::Hasher for Recorder {
+    fn finish(&self) -> u64 {
+        0
+    }
+    fn write(&mut self, bytes: &[u8]) {
+        self.0.extend_from_slice(bytes);
+    }
+}
+
+fn hash_stream(v: &DataType) -> Vec<u8> {
+    use std::hash::Hash;
+    let mut r = Recorder::default();
+    v.hash(&mut r);
+    r.0
+}
+
+/// The borrowed form (`DataTypeRef`) of a value: obtained by serializing it and reading it back.
+fn ref_buf(v: &DataType) -> Option<AlignedBuf> {
+    v.serialize().ok().map(|bs| AlignedBuf::from(&bs))
+}
+
+fn to_ref<'a>(v: &DataType, buf: &'a Option<AlignedBuf>) -> Option<DataTypeRef<'a>> {
+    if v.is_null() {
+        return Some(DataTypeRef::Null);
+    }
+    let buf = buf.as_ref()?;
+    v.kind().deserialize(buf.as_ref(), 0).ok().map(|(r, _)| r)
+}
+
+fn cmp_name(o: Option<Ordering>) -> &'static str {
+    match o {
+        Some(o) => ord_name(o),
+        None => "none",
+    }
+}
+
+fn tf(b: bool) -> &'static str {
+    if b { "t" } else { "f" }
+}
+
+fn ok_fail(b: bool) -> &'static str {
+    if b { "ok" } else { "FAIL" }
+}
+
+/// `Sort::compare_keys` for one ascending NULLS FIRST key (runtime/ops/sort.rs:58-89).
+fn sort_cmp(a: &DataType, b: &DataType) -> Ordering {
+    match (a, b) {
+        (DataType::Null, DataType::Null) => Ordering::Equal,
+        (DataType::Null, _) => Ordering::Less,
+        (_, DataType::Null) => Ordering::Greater,
+        _ => a.partial_cmp(b).unwrap_or(Ordering::Equal),
+    }
+}
+
+fn cls(v: &DataType) -> u8 {
+    match v {
+        DataType::Null => 0,
+        DataType::Bool(_) => 1,
+        DataType::Blob(_) => 3,
+        _ => 2,
+    }
+}
+
+fn laws(vs: &[DataType]) -> String {
+    let e = |a: &DataType, b: &DataType| a == b;
+    let c = |a: &DataType, b: &DataType| a.partial_cmp(b);
+    let hs: Vec<Vec<u8>> = vs.iter().map(hash_stream).collect();
+    let n = vs.len();
+    let (mut refl, mut sym, mut trans, mut ord, mut consist, mut total, mut hash, mut sortord) =
+        (true, true, true, true, true, true, true, true);
+    for i in 0..n {
+        refl &= e(&vs[i], &vs[i]);
+        for j in 0..n {
+            let (a, b) = (&vs[i], &vs[j]);
+            sym &= e(a, b) == e(b, a) && c(a, b) == c(b, a).map(Ordering::reverse);
+            if cls(a) != 0 && cls(b) != 0 {
+                consist &= (c(a, b) == Some(Ordering::Equal)) == e(a, b);
+            }
+            if cls(a) != 0 && cls(a) == cls(b) {
+                total &= c(a, b).is_some();
+            }
+            if e(a, b) {
+                hash &= hs[i] == hs[j];
+            }
+            for k in 0..n {
+                let x = &vs[k];
+                if e(a, b) && e(b, x) {
+                    trans &= e(a, x);
+                }
+                if c(a, b) == Some(Ordering::Less) && c(b, x) == Some(Ordering::Less) {
+                    ord &= c(a, x) == Some(Ordering::Less);
+                }
+                if c(a, b) == Some(Ordering::Equal) {
+                    ord &= c(a, x) == c(b, x);
+                }
+                sortord &= sort_cmp(a, b) == sort_cmp(b, a).reverse();
+                if sort_cmp(a, b) == Ordering::Less && sort_cmp(b, x) == Ordering::Less {
+                    sortord &= sort_cmp(a, x) == Ordering::Less;
+                }
+                if sort_cmp(a, b) == Ordering::Equal && sort_cmp(b, x) == Ordering::Equal {
+                    sortord &= sort_cmp(a, x) == Ordering::Equal;
+                }
+            }
+        }
+    }
+    format!(
+        "sortord={} refl={} sym={} trans={} ord={} consist={} total={} hash={}",
+        ok_fail(sortord),
+        ok_fail(refl),
+        ok_fail(sym),
+        ok_fail(trans),
+        ok_fail(ord),
+        ok_fail(consist),
+        ok_fail(total),
+        ok_fail(hash)
+    )
+}
+
+fn exec_line(line: &str) -> String {
+    let ws: Vec<&str> = line.split_whitespace().collect();
+    match ws.as_slice() {
+        ["zz", v] => match v.parse::<i64>() {
+            Ok(v) => hooks::zigzag_encode(v).to_string(),
+            Err(_) => "bad-op".into(),
+        },
+        ["uzz", u] => match u.parse::<u64>() {
+            Ok(u) => hooks::zigzag_decode(u).to_string(),
+            Err(_) => "bad-op".into(),
+        },
+        ["vi.enc", v] => match v.parse::<i64>() {
+            Ok(v) => {
+                let e = hooks::varint_encode(v);
+                let rt = match hooks::varint_decode(&e) {
+                    Ok((v2, used)) if v2 == v && used == e.len() => "rt=ok",
+                    _ => "rt=DIFF",
+                };
+                format!("{} size={} {}", hex(&e), hooks::varint_encoded_size(v), rt)
+            }
+            Err(_) => "bad-op".into(),
+        },
+        ["vi.dec", h] => match unhex(h) {
+            Some(bs) => match hooks::varint_decode(&bs) {
+                Ok((v, used)) => format!("ok {} used={}", v, used),
+                Err(e) => format!("err {}", ser_err(&e)),
+            },
+            None => "bad-op".into(),
+        },
+        ["vi.read", h] => match unhex(h) {
+            Some(bs) => match hooks::varint_read_buf(&bs) {
+                Ok(p) => format!("ok {}", hex(&p)),
+                Err(e) => format!("err {}", ser_err(&e)),
+            },
+            None => "bad-op".into(),
+        },
+        ["vi.cmp", a, b] => match (unhex(a), unhex(b)) {
+            (Some(a), Some(b)) => match hooks::varint_cmp(&a, &b) {
+                Ok(o) => ord_name(o).into(),
+                Err(e) => format!("err {}", ser_err(&e)),
+            },
+            _ => "bad-op".into(),
+        },
+        ["blob.enc", h] => match unhex(h) {
+            Some(d) => {
+                let b = Blob::from_unencoded_slice(&d);
+                let e: &[u8] = b.as_ref();
+                let rt = match DataTypeKind::Blob.reinterpret_cast(e) {
+                    Ok((DataTypeRef::Blob(r), used)) if used == e.len() && r.data().ok() == Some(&d[..]) => "rt=ok",
+                    _ => "rt=DIFF",
+                };
+                let dl = b.data_length().ok() == Some(d.len()) && b.data().ok() == Some(&d[..]);
+                format!("{} {}", hex(e), if dl { rt } else { "rt=DIFF" })
+            }
+            None => "bad-op".into(),
+        },
+        ["blob.dec", h] => match unhex(h) {
+            Some(bs) => match DataTypeKind::Blob.reinterpret_cast(&bs) {
+                Ok((DataTypeRef::Blob(r), used)) => match r.data() {
+                    Ok(d) => format!("ok data={} used={}", hex_or_dash(d), used),
+                    Err(_) => "ok data=ERR".into(),
+                },
+                Ok(_) => "ok not-a-blob".into(),
+                Err(e) => format!("err {}", ser_err(&e)),
+            },
+            None => "bad-op".into(),
+        },
+        ["blob.cmp", a, b] => match (unhex(a), unhex(b)) {
+            (Some(a), Some(b)) => {
+                let x = Blob::from_unencoded_slice(&a);
+                let y = Blob::from_unencoded_slice(&b);
+                let o = x.partial_cmp(&y);
+                // the borrowed form must agree with the owned one
+                let o_ref = x.as_blob_ref().partial_cmp(&y.as_blob_ref());
+                let eq = x == y;
+                let eq_ref = x.as_blob_ref() == y.as_blob_ref();
+                if o != o_ref || eq != eq_ref {
+                    return format!("REFDIFF owned={:?}/{} ref={:?}/{}", o, eq, o_ref, eq_ref);
+                }
+                match o {
+                    Some(o) => format!("{} eq={}", ord_name(o), eq),
+                    None => format!("none eq={}", eq),
+                }
+            }
+            _ => "bad-op".into(),
+        },
+        ["ser", v] => match parse_value(v) {
+            Some(v) => match v.serialize() {
+                Ok(bs) => {
+                    let buf = AlignedBuf::from(&bs);
+                    let rt = match deser(v.kind(), &buf, 0) {
+                        Ok((v2, c)) if same_value(&v, &v2) && c == bs.len() => "rt=ok",
+                        _ => "rt=DIFF",
+                    };
+                    let sz = if v.runtime_size() == bs.len() { "" } else { " SIZEDIFF" };
+                    format!("ok {} {}{}", hex_or_dash(&bs), rt, sz)
+                }
+                Err(e) => format!("err {}", ser_err(&e)),
+            },
+            None => "bad-op".into(),
+        },
+        ["wr", v, c, extra] => match (parse_value(v), c.parse::<usize>(), extra.parse::<usize>()) {
+            (Some(v), Ok(c), Ok(extra)) if c <= 4096 && extra <= 4096 => {
+                if v.is_null() {
+                    return match v.serialize() {
+                        Err(e) => format!("err {}", ser_err(&e)),
+                        Ok(_) => "ok-null".into(),
+                    };
+                }
+                let size = v.runtime_size();
+                let mut buf = AlignedBuf::zeroed(align_up(c, v.kind().align()) + size + extra);
+                match v.write_to(buf.as_mut(), c) {
+                    Ok(c2) => {
+                        let rt = match deser(v.kind(), &buf, c) {
+                            Ok((v2, c3)) if same_value(&v, &v2) && c3 == c2 => "rt=ok",
+                            _ => "rt=DIFF",
+                        };
+                        format!("ok cur={} buf={} {}", c2, hex_or_dash(buf.as_ref()), rt)
+                    }
+                    Err(e) => format!("err {}", ser_err(&e)),
+                }
+            }
+            _ => "bad-op".into(),
+        },
+        ["de", k, c, h] => match (parse_kind(k), c.parse::<usize>(), unhex(h)) {
+            (Some(k), Ok(c), Some(bs)) if c <= bs.len() => {
+                let buf = AlignedBuf::from(&bs);
+                match deser(k, &buf, c) {
+                    Ok((v, c2)) => format!("ok {} cur={}", show_value(&v), c2),
+                    Err(e) => e,
+                }
+            }
+            _ => "bad-op".into(),
+        },
+        ["pair", a, b] => match (parse_value(a), parse_value(b)) {
+            (Some(a), Some(b)) => {
+                let (ha, hb) = (hash_stream(&a), hash_stream(&b));
+                let eq = a == b;
+                let cmp = a.partial_cmp(&b);
+                // the borrowed forms (what the B+tree and the tuple reader compare) must agree with the owned ones
+                let (ba, bb) = (ref_buf(&a), ref_buf(&b));
+                let ref_ok = match (to_ref(&a, &ba), to_ref(&b, &bb)) {
+                    (Some(ra), Some(rb)) => {
+                        use std::hash::Hash;
+                        let mut h1 = Recorder::default();
+                        ra.hash(&mut h1);
+                        let mut h2 = Recorder::default();
+                        rb.hash(&mut h2);
+                        (ra == rb) == eq && ra.partial_cmp(&rb) == cmp && h1.0 == ha && h2.0 == hb
+                    }
+                    _ => false,
+                };
+                format!(
+                    "eq={} cmp={} heq={} sort={}{} ## ha={} hb={}",
+                    tf(eq),
+                    cmp_name(cmp),
+                    tf(ha == hb),
+                    ord_name(sort_cmp(&a, &b)),
+                    if ref_ok { "" } else { " REFDIFF" },
+                    hex(&ha),
+                    hex(&hb)
+                )
+            }
+            _ => "bad-op".into(),
+        },
+        ["hash", v] => match parse_value(v) {
+            Some(v) => hex(&hash_stream(&v)),
+            None => "bad-op".into(),
+        },
+        ["laws", vs @ ..] if !vs.is_empty() && vs.len() <= 4 => {
+            let vals: Option<Vec<DataType>> = vs.iter().map(|v| parse_value(v)).collect();
+            match vals {
+                Some(vals) => laws(&vals),
+                None => "bad-op".into(),
+            }
+        }
+        ["cast", v, k] => match (parse_value(v), parse_kind(k)) {
+            (Some(v), Some(k)) => match v.try_cast(k) {
+                Ok(w) => format!("ok {}", show_value(&w)),
+                Err(TypeSystemError::UnexpectedDataType(_)) => "err cast".into(),
+                Err(_) => "err other".into(),
+            },
+            _ => "bad-op".into(),
+        },
+        _ => "bad-op".into(),
+    }
+}
+
+// ---- SQL sub-mode ------------------------------------------------------------------------------------------
+
+const P53: i128 = 1 << 53;
+
+/// A SQL expression that evaluates to exactly this value. Numeric literals are lexed as `f64`
+/// (sql/parser/lexer.rs), so integers beyond 2^53 are spelled as exact integer arithmetic over smaller literals.
+fn sql_literal(v: &DataType) -> Option<String> {
+    fn int_lit(n: i128) -> Option<String> {
+        let m = n.unsigned_abs() as i128;
+        if m >= 1 << 62 {
+            return None;
+        }
+        let pos = if m <= P53 { format!("{}", m) } else { format!("(9007199254740992 * {} + {})", m >> 53, m & (P53 - 1)) };
+        Some(if n < 0 { format!("(0 - {})", pos) } else { pos })
+    }
+    fn float_lit(x: f64) -> Option<String> {
+        if !x.is_finite() || (x == 0.0 && x.is_sign_negative()) {
+            return None;
+        }
+        let m = format!("{}", x.abs());
+        if m.contains('e') || m.contains('E') {
+            return None;
+        }
+        Some(if x < 0.0 { format!("(0 - {})", m) } else { m })
+    }
+    match v {
+        DataType::Null => Some("NULL".into()),
+        DataType::Bool(b) => Some(if b.value() { "TRUE".into() } else { "FALSE".into() }),
+        DataType::Int(i) => int_lit(i.0 as i128),
+        DataType::BigInt(i) => int_lit(i.0 as i128),
+        DataType::UInt(i) => int_lit(i.0 as i128),
+        DataType::BigUInt(i) => int_lit(i.0 as i128),
+        DataType::Float(f) => float_lit(f.0 as f64),
+        DataType::Double(f) => float_lit(f.0),
+        DataType::Blob(b) => {
+            let d = b.data().ok()?;
+            if d.iter().all(|c| c.is_ascii_alphanumeric() || *c == b' ') {
+                Some(format!("'{}'", String::from_utf8_lossy(d)))
+            } else {
+                None
+            }
+        }
+    }
+}
+
+fn sql_type(kind: DataTypeKind) -> &'static str {
+    match kind {
+        DataTypeKind::Bool => "BOOLEAN",
+        DataTypeKind::Int => "INT",
+        DataTypeKind::BigInt => "BIGINT",
+        DataTypeKind::UInt => "UINT",
+        DataTypeKind::BigUInt => "BIGUINT",
+        DataTypeKind::Float => "FLOAT",
+        DataTypeKind::Double => "DOUBLE",
+        DataTypeKind::Blob => "TEXT",
+        DataTypeKind::Null => "NULL",
+    }
+}
+
+fn exec_sql(kind: DataTypeKind, vals: &[DataType]) -> String {
+    use axmosdb::{DBConfig, Database};
+    let lits: Option<Vec<String>> = vals.iter().map(sql_literal).collect();
+    let Some(lits) = lits else { return "unsupported-literal".into() };
+    let nanos = std::time::SystemTime::now().duration_since(std::time::UNIX_EPOCH).unwrap().as_nanos() as u64;
+    let dir = std::env::temp_dir().join(format!("axv-c19-sql-{}-{:x}", std::process::id(), nanos));
+    if std::fs::create_dir_all(&dir).is_err() {
+        return "ERR:tmpdir".into();
+    }
+    let out = (|| -> Result<String, String> {
+        let db = Database::create(dir.join("v.db"), DBConfig::default()).map_err(|e| format!("ERR:create {}", e))?;
+        let run = |sql: &str| db.execute(sql).map_err(|e| format!("ERR:{} ## {}", sql.split(' ').next().unwrap_or(""), e));
+        // a single-column result as value strings
+        let col = |sql: &str, c: usize| -> Result<Vec<Vec<String>>, String> {
+            let rows = run(sql)?.into_rows().ok_or_else(|| "ERR:norows".to_string())?;
+            Ok(rows.iterrows().map(|r| r.iter().take(c).map(show_value).collect()).collect())
+        };
+        let show_l = |xs: Vec<String>| format!("[{}]", xs.join(","));
+        run(&format!("CREATE TABLE t (x INT, v {})", sql_type(kind)))?;
+        for (i, l) in lits.iter().enumerate() {
+            run(&format!("INSERT INTO t VALUES ({}, {})", i, l))?;
+        }
+        let first = |rows: Vec<Vec<String>>| rows.into_iter().map(|mut r| r.remove(0)).collect::<Vec<_>>();
+        let asc = first(col("SELECT v FROM t ORDER BY v", 1)?);
+        let desc = first(col("SELECT v FROM t ORDER BY v DESC", 1)?);
+        let mut distinct = first(col("SELECT DISTINCT v FROM t", 1)?);
+        distinct.sort();
+        let mut group: Vec<String> = col("SELECT v, COUNT(*) FROM t GROUP BY v", 2)?
+            .into_iter()
+            .map(|r| format!("{}:{}", r[0], r[1].trim_start_matches("I:")))
+            .collect();
+        group.sort();
+        let mut s = format!(
+            "order={} desc={} distinct={} group={}",
+            show_l(asc),
+            show_l(desc),
+            show_l(distinct),
+            show_l(group)
+        );
+        let nn: Vec<&String> = vals.iter().zip(&lits).filter(|(v, _)| !v.is_null()).map(|(_, l)| l).collect();
+        if let Some(p) = nn.first() {
+            let q = nn.get(1).unwrap_or(p);
+            let xs = |sql: String| -> Result<String, String> {
+                let mut r: Vec<i64> = first(col(&sql, 1)?)
+                    .iter()
+                    .filter_map(|x| x.trim_start_matches("i:").parse().ok())
+                    .collect();
+                r.sort();
+                Ok(show_l(r.iter().map(|x| x.to_string()).collect()))
+            };
+            s += &format!(" in={}", xs(format!("SELECT x FROM t WHERE v IN ({}, {})", p, q))?);
+            s += &format!(" eq={}", xs(format!("SELECT x FROM t WHERE v = {}", p))?);
+            s += &format!(" lt={}", xs(format!("SELECT x FROM t WHERE v < {}", p))?);
+            s += &format!(" ge={}", xs(format!("SELECT x FROM t WHERE v >= {}", p))?);
+            // PRIMARY KEY in a database of its own, and at most six rows: the eighth insert into a table with a
+            // primary key aborts in page defragmentation (storage/core/buffer.rs:897, outside this property)
+            let dir2 = dir.join("pk");
+            std::fs::create_dir_all(&dir2).map_err(|_| "ERR:tmpdir".to_string())?;
+            let db2 = Database::create(dir2.join("k.db"), DBConfig::default()).map_err(|e| format!("ERR:create {}", e))?;
+            db2.execute(&format!("CREATE TABLE k (v {}, x INT, PRIMARY KEY (v))", sql_type(kind)))
+                .map_err(|e| format!("ERR:CREATE ## {}", e))?;
+            let mut pk = Vec::new();
+            for (i, l) in nn.iter().take(6).enumerate() {
+                pk.push(match db2.execute(&format!("INSERT INTO k VALUES ({}, {})", l, i)) {
+                    Ok(_) => "o".to_string(),
+                    Err(e) if e.to_string().contains("UNIQUE constraint") => "d".to_string(),
+                    Err(e) => format!("E ## {}", e),
+                });
+            }
+            s += &format!(" pk={}", show_l(pk));
+        }
+        Ok(s)
+    })();
+    let _ = std::fs::remove_dir_all(&dir);
+    match out {
+        Ok(s) => s,
+        Err(e) => e,
+    }
+}
+
+impl Engine for ValueEngine {
+    fn exec(&mut self, line: &str) -> String {
+        let ws: Vec<&str> = line.split_whitespace().collect();
+        if let ["key", ks, tv, cv] = ws.as_slice() {
+            return self.exec_key(ks, tv, cv);
+        }
+        if let ["sql", k, vs] = ws.as_slice() {
+            let kind = parse_kind(k);
+            let vals: Option<Vec<DataType>> = vs.split(',').map(parse_value).collect();
+            return match (kind, vals) {
+                (Some(kind), Some(vals))
+                    if kind != DataTypeKind::Null
+                        && !vals.is_empty()
+                        && vals.len() <= 40
+                        && vals.iter().all(|v| v.is_null() || v.kind() == kind) =>
+                {
+                    exec_sql(kind, &vals)
+                }
+                _ => "bad-op".into(),
+            };
+        }
+        exec_line(line)
+    }
+
+    fn gen_cases(&self, rng: &mut Rng, tier: Tier) -> Vec<Case> {
+        let scale: u64 = if tier == Tier::Quick { 1 } else { 10 };
+        let mut cases = Vec::new();
+        gen_varint(rng, scale, &mut cases);
+        gen_blob(rng, scale, &mut cases);
+        gen_serialize(rng, scale, &mut cases);
+        gen_cast(rng, scale, &mut cases);
+        gen_compare(rng, scale, &mut cases);
+        gen_keys(rng, scale, &mut cases);
+        gen_sql(rng, scale, &mut cases);
+        cases
+    }
+}
+
+// ------------------------------------------------------------------------------------------------ generators
+
+/// i64 values on every boundary of the encoding: 7-bit group edges of the zig-zag image, type limits.
+fn i64_grid() -> Vec<i64> {
+    let mut g: Vec<i64> = vec![0, 1, -1, 2, -2, i64::MIN, i64::MIN + 1, i64::MAX, i64::MAX - 1];
+    for k in 1..=9u32 {
+        // zigzag(v) < 2^(7k)  <=>  -2^(7k-1) <= v < 2^(7k-1)
+        let e: i128 = 1i128 << (7 * k - 1);
+        for d in [-2i128, -1, 0, 1] {
+            for s in [1i128, -1] {
+                let v = s * e + d;
+                if v >= i64::MIN as i128 && v <= i64::MAX as i128 {
+                    g.push(v as i64);
+                }
+            }
+        }
+    }
+    for k in [24u32, 31, 32, 53, 62] {
+        for d in [-1i64, 0, 1] {
+            g.push((1i64 << k).wrapping_add(d));
+            g.push((1i64 << k).wrapping_neg().wrapping_add(d));
+        }
+    }
+    g.sort();
+    g.dedup();
+    g
+}
+
+fn rand_i64(rng: &mut Rng) -> i64 {
+    match rng.below(4) {
+        0 => rng.range(-200, 200),
+        1 => {
+            let bits = rng.below(64) as u32;
+            let v = rng.next_u64() >> (63 - bits.min(63));
+            if rng.chance(1, 2) { v as i64 } else { (v as i64).wrapping_neg() }
+        }
+        2 => *rng.pick(&i64_grid()),
+        _ => rng.next_u64() as i64,
+    }
+}
+
+fn size_tag(n: usize) -> String {
+    format!("vlen{}", n)
+}
+
+fn gen_varint(rng: &mut Rng, scale: u64, cases: &mut Vec<Case>) {
+    let grid = i64_grid();
+    for &v in &grid {
+        let n = hooks::varint_encoded_size(v);
+        let nt = if n > 1 { "nt" } else { "triv" };
+        cases.push(Case::new(format!("vi.enc {}", v), &["vi.enc", "grid", &size_tag(n), nt]));
+        cases.push(Case::new(format!("zz {}", v), &["zz", "grid", nt]));
+        cases.push(Case::new(format!("uzz {}", v as u64), &["uzz", "grid", nt]));
+    }
+    for u in [0u64, 1, 2, 3, u64::MAX, u64::MAX - 1, 1 << 63, (1 << 63) - 1, (1 << 63) + 1] {
+        cases.push(Case::new(format!("uzz {}", u), &["uzz", "grid", "nt"]));
+    }
+    for _ in 0..1500 * scale {
+        let v = rand_i64(rng);
+        let n = hooks::varint_encoded_size(v);
+        let nt = if n > 1 { "nt" } else { "triv" };
+        cases.push(Case::new(format!("vi.enc {}", v), &["vi.enc", "random", &size_tag(n), nt]));
+    }
+    for _ in 0..300 * scale {
+        cases.push(Case::new(format!("zz {}", rand_i64(rng)), &["zz", "random", "nt"]));
+        cases.push(Case::new(format!("uzz {}", rng.next_u64()), &["uzz", "random", "nt"]));
+    }
+    // decoder inputs
+    for len in 0..=12usize {
+        // nothing but continuation bytes; and the same with a terminator at the very end
+        let all = vec![0x80u8 | (len as u8); len];
+        cases.push(Case::new(format!("vi.dec {}", hex_or_dash(&all)), &["vi.dec", "dec-unterminated", "nt"]));
+        cases.push(Case::new(format!("vi.read {}", hex_or_dash(&all)), &["vi.read", "dec-unterminated", "nt"]));
+        let mut t = vec![0xffu8; len];
+        t.push(0x01);
+        let tag = if t.len() > 10 { "dec-overlong" } else { "dec-maxbits" };
+        cases.push(Case::new(format!("vi.dec {}", hex(&t)), &["vi.dec", tag, "nt"]));
+        cases.push(Case::new(format!("vi.read {}", hex(&t)), &["vi.read", tag, "nt"]));
+    }
+    for last in [0x00u8, 0x01, 0x02, 0x03, 0x7e, 0x7f] {
+        // ten bytes whose last one carries bits beyond 64
+        let mut t = vec![0xffu8; 9];
+        t.push(last);
+        cases.push(Case::new(format!("vi.dec {}", hex(&t)), &["vi.dec", "dec-bits-dropped", "nt"]));
+        let mut z = vec![0x80u8; 9];
+        z.push(last);
+        cases.push(Case::new(format!("vi.dec {}", hex(&z)), &["vi.dec", "dec-noncanonical", "nt"]));
+    }
+    for _ in 0..2500 * scale {
+        let (bs, tag) = match rng.below(5) {
+            0 => (rng.rbytes(0, 14), "dec-random"),
+            1 => {
+                // valid encoding followed by anything
+                let mut e = hooks::varint_encode(rand_i64(rng));
+                e.extend(rng.rbytes(0, 4));
+                (e, "dec-valid-plus-rest")
+            }
+            2 => {
+                // valid encoding cut short
+                let mut e = hooks::varint_encode(rand_i64(rng));
+                let cut = rng.below(e.len() as u64) as usize;
+                e.truncate(cut);
+                (e, "dec-truncated")
+            }
+            3 => {
+                // continuation bytes of random length, then maybe a terminator
+                let n = rng.below(13) as usize;
+                let mut e: Vec<u8> = (0..n).map(|_| 0x80 | rng.next_u64() as u8).collect();
+                if rng.chance(2, 3) {
+                    e.push(rng.next_u64() as u8 & 0x7f);
+                }
+                (e, "dec-structured")
+            }
+            _ => {
+                // non-canonical: padded with 0x80 … 0x00
+                let mut e = hooks::varint_encode(rand_i64(rng));
+                let l = e.len();
+                let pad = rng.below(4) as usize;
+                if pad > 0 {
+                    e[l - 1] |= 0x80;
+                    for _ in 1..pad {
+                        e.push(0x80);
+                    }
+                    e.push(0x00);
+                }
+                (e, "dec-noncanonical")
+            }
+        };
+        let op = if rng.chance(1, 5) { "vi.read" } else { "vi.dec" };
+        cases.push(Case::new(format!("{} {}", op, hex_or_dash(&bs)), &[op, tag, "nt"]));
+    }
+    for _ in 0..300 * scale {
+        let a = hooks::varint_encode(rand_i64(rng));
+        let b = if rng.chance(1, 6) { a.clone() } else { hooks::varint_encode(rand_i64(rng)) };
+        cases.push(Case::new(format!("vi.cmp {} {}", hex(&a), hex(&b)), &["vi.cmp", "nt"]));
+    }
+}
+
+/// Byte strings around every length at which the comparator or the length prefix changes behaviour.
+fn blob_len_grid() -> Vec<usize> {
+    vec![0, 1, 2, 7, 8, 9, 15, 16, 17, 23, 24, 25, 31, 32, 33, 63, 64, 65, 127, 128, 8191, 8192, 8193]
+}
+
+fn rand_blob(rng: &mut Rng) -> Vec<u8> {
+    let n = match rng.below(6) {
+        0 => 0,
+        1 => rng.below(9) as usize,
+        2 => 8 + rng.below(20) as usize,
+        3 => *rng.pick(&blob_len_grid()).min(&200),
+        4 => rng.below(70) as usize,
+        _ => rng.below(300) as usize,
+    };
+    match rng.below(4) {
+        0 => vec![*rng.pick(&[0u8, 0x7f, 0x80, 0xff, b'a']); n],
+        1 => (0..n).map(|_| *rng.pick(&[0u8, 0x7f, 0x80, 0xff])).collect(),
+        2 => (0..n).map(|_| b'a' + rng.below(3) as u8).collect(),
+        _ => rng.bytes(n),
+    }
+}
+
+/// A partner for `a` that agrees with it on a long prefix (so that the chunked comparison has to go deep).
+fn related_blob(rng: &mut Rng, a: &[u8]) -> (Vec<u8>, &'static str) {
+    match rng.below(7) {
+        0 => (a.to_vec(), "cmp-identical"),
+        1 => {
+            let cut = rng.below(a.len() as u64 + 1) as usize;
+            (a[..cut].to_vec(), "cmp-prefix")
+        }
+        2 => {
+            let mut b = a.to_vec();
+            b.extend(rng.rbytes(1, 10));
+            (b, "cmp-extension")
+        }
+        3 | 4 if !a.is_empty() => {
+            let mut b = a.to_vec();
+            let i = rng.below(a.len() as u64) as usize;
+            b[i] = match rng.below(3) {
+                0 => b[i].wrapping_add(1),
+                1 => b[i] ^ 0x80,
+                _ => rng.next_u64() as u8,
+            };
+            // optionally also change the length, so that "differs at i" competes with "shorter"
+            match rng.below(3) {
+                0 => b.truncate(i + 1 + rng.below((a.len() - i) as u64) as usize),
+                1 => b.extend(rng.rbytes(0, 9)),
+                _ => {}
+            }
+            (b, "cmp-differs-at")
+        }
+        _ => (rand_blob(rng), "cmp-unrelated"),
+    }
+}
+
+fn gen_blob(rng: &mut Rng, scale: u64, cases: &mut Vec<Case>) {
+    for &n in &blob_len_grid() {
+        let d = rng.bytes(n);
+        let nt = if n > 0 { "nt" } else { "triv" };
+        cases.push(Case::new(format!("blob.enc {}", hex_or_dash(&d)), &["blob.enc", "grid", nt]));
+    }
+    for _ in 0..400 * scale {
+        let d = rand_blob(rng);
+        let nt = if !d.is_empty() { "nt" } else { "triv" };
+        cases.push(Case::new(format!("blob.enc {}", hex_or_dash(&d)), &["blob.enc", "random", nt]));
+    }
+    // decoder
+    for _ in 0..2000 * scale {
+        let (bs, tag) = match rng.below(6) {
+            0 => (rng.rbytes(0, 20), "bdec-random"),
+            1 => {
+                let b = Blob::from_unencoded_slice(&rand_blob(rng));
+                let mut e = b.as_ref().to_vec();
+                e.extend(rng.rbytes(0, 5));
+                (e, "bdec-valid-plus-rest")
+            }
+            2 => {
+                let d = rand_blob(rng);
+                let b = Blob::from_unencoded_slice(&d);
+                let mut e = b.as_ref().to_vec();
+                let cut = rng.below(e.len() as u64) as usize;
+                e.truncate(cut);
+                (e, "bdec-truncated")
+            }
+            3 => {
+                // length prefix that is negative (odd zig-zag image)
+                let v = -rng.range(1, 40);
+                let mut e = hooks::varint_encode(v);
+                e.extend(rng.rbytes(0, 6));
+                (e, "bdec-negative-len")
+            }
+            4 => {
+                // huge announced length
+                let v = match rng.below(3) {
+                    0 => i64::MAX,
+                    1 => i64::MIN,
+                    _ => rand_i64(rng),
+                };
+                let mut e = hooks::varint_encode(v);
+                e.extend(rng.rbytes(0, 6));
+                (e, "bdec-any-len")
+            }
+            _ => {
+                // announced length off by a little
+                let d = rand_blob(rng);
+                let v = (d.len() as i64 + rng.range(-2, 2)).max(0);
+                let mut e = hooks::varint_encode(v);
+                e.extend(&d);
+                (e, "bdec-len-off-by")
+            }
+        };
+        cases.push(Case::new(format!("blob.dec {}", hex_or_dash(&bs)), &["blob.dec", tag, "nt"]));
+    }
+    // comparator: exhaustive pairs over a small structured grid …
+    let mut grid: Vec<Vec<u8>> = vec![vec![]];
+    for n in [1usize, 7, 8, 9, 16, 17] {
+        for fill in [0x00u8, 0x7f, 0x80, 0xff] {
+            grid.push(vec![fill; n]);
+        }
+        let mut v = vec![0x61u8; n];
+        *v.last_mut().unwrap() = 0x62;
+        grid.push(v);
+    }
+    for a in &grid {
+        for b in &grid {
+            let nt = if a.is_empty() && b.is_empty() { "triv" } else { "nt" };
+            cases.push(Case::new(
+                format!("blob.cmp {} {}", hex_or_dash(a), hex_or_dash(b)),
+                &["blob.cmp", "cmp-grid", nt],
+            ));
+        }
+    }
+    // … and related random pairs
+    for _ in 0..4000 * scale {
+        let a = rand_blob(rng);
+        let (b, tag) = related_blob(rng, &a);
+        let deep = if a.len().min(b.len()) > 8 { "cmp-chunked" } else { "cmp-bytewise" };
+        let (a, b) = if rng.chance(1, 2) { (a, b) } else { (b, a) };
+        cases.push(Case::new(
+            format!("blob.cmp {} {}", hex_or_dash(&a), hex_or_dash(&b)),
+            &["blob.cmp", tag, deep, "nt"],
+        ));
+    }
+}
+
+// ---- value grids ---------------------------------------------------------------------------------------------
+
+fn i32_grid() -> Vec<i32> {
+    let mut g = vec![0, 1, -1, 2, -2, 127, 128, 255, 256, i32::MIN, i32::MIN + 1, i32::MAX, i32::MAX - 1];
+    for k in [15u32, 16, 23, 24, 25, 30] {
+        for d in [-3i32, -2, -1, 0, 1, 2, 3] {
+            g.push((1i32 << k) + d);
+            g.push(-(1i32 << k) + d);
+        }
+    }
+    g.sort();
+    g.dedup();
+    g
+}
+
+fn i64_value_grid() -> Vec<i64> {
+    let mut g: Vec<i64> = i32_grid().into_iter().map(|v| v as i64).collect();
+    g.extend([i64::MIN, i64::MIN + 1, i64::MAX, i64::MAX - 1]);
+    for k in [31u32, 32, 33, 52, 53, 54, 55, 62] {
+        for d in [-6i64, -3, -2, -1, 0, 1, 2, 3, 6] {
+            g.push((1i64 << k) + d);
+            g.push(-(1i64 << k) + d);
+        }
+    }
+    // around the last f64 values below 2^63 (spacing 1024) and f32 values (spacing 2^39)
+    for d in [511i64, 512, 513, 1023, 1024, 1025, 1535, 1536, 1537] {
+        g.push(i64::MAX - d);
+        g.push(i64::MIN + d);
+    }
+    for d in [(1i64 << 38) - 1, 1 << 38, (1 << 38) + 1, (3 << 38) - 1, 3 << 38, (3 << 38) + 1] {
+        g.push(i64::MAX - d);
+    }
+    g.sort();
+    g.dedup();
+    g
+}
+
+fn u32_grid() -> Vec<u32> {
+    let mut g = vec![0u32, 1, 2, u32::MAX, u32::MAX - 1, i32::MAX as u32, i32::MAX as u32 + 1, i32::MAX as u32 + 2];
+    for k in [23u32, 24, 25, 31] {
+        for d in [-3i64, -2, -1, 0, 1, 2, 3] {
+            g.push(((1i64 << k) + d) as u32);
+        }
+    }
+    for d in [63u32, 64, 65, 127, 128, 129, 191, 192, 193] {
+        g.push(u32::MAX - d);
+    }
+    g.sort();
+    g.dedup();
+    g
+}
+
+fn u64_grid() -> Vec<u64> {
+    let mut g: Vec<u64> = u32_grid().into_iter().map(|v| v as u64).collect();
+    g.extend([u64::MAX, u64::MAX - 1, i64::MAX as u64, i64::MAX as u64 + 1, i64::MAX as u64 + 2]);
+    for k in [32u32, 52, 53, 54, 55, 62, 63] {
+        for d in [-6i128, -3, -2, -1, 0, 1, 2, 3, 6] {
+            g.push(((1i128 << k) + d) as u64);
+        }
+    }
+    for d in [1023u64, 1024, 1025, 2047, 2048, 2049, 3071, 3072, 3073] {
+        g.push(u64::MAX - d);
+    }
+    for d in [(1u64 << 39) - 1, 1 << 39, (1 << 39) + 1, (3 << 39) - 1, 3 << 39, (3 << 39) + 1] {
+        g.push(u64::MAX - d);
+    }
+    g.sort();
+    g.dedup();
+    g
+}
+
+fn f64_grid() -> Vec<u64> {
+    let mut g: Vec<u64> = Vec::new();
+    let mut both = |b: u64| {
+        g.push(b);
+        g.push(b | (1 << 63));
+    };
+    for b in [
+        0u64,
+        1,                     // smallest subnormal
+        2,
+        0x000f_ffff_ffff_ffff, // largest subnormal
+        0x0010_0000_0000_0000, // smallest normal
+        0x7fef_ffff_ffff_ffff, // largest finite
+        0x7ff0_0000_0000_0000, // inf
+        0x7ff0_0000_0000_0001, // signalling NaN
+        0x7ff8_0000_0000_0000, // quiet NaN
+        0x7ff8_0000_2000_0000,
+        0x7fff_ffff_ffff_ffff,
+        0x7ff4_0000_0000_0000,
+    ] {
+        both(b);
+    }
+    for v in [
+        0.5f64,
+        0.999_999_999_999_999_9,
+        1.0,
+        1.000_000_000_000_000_2,
+        1.5,
+        2.0,
+        2.5,
+        0.1,
+        255.5,
+        16_777_215.0,
+        16_777_216.0,
+        16_777_217.0,
+        16_777_218.0,
+        2_147_483_646.5,
+        2_147_483_647.0,
+        2_147_483_647.5,
+        2_147_483_648.0,
+        2_147_483_648.5,
+        2_147_483_649.0,
+        4_294_967_295.0,
+        4_294_967_295.5,
+        4_294_967_296.0,
+        9_007_199_254_740_991.0,
+        9_007_199_254_740_992.0,
+        9_007_199_254_740_994.0,
+        9_223_372_036_854_774_784.0, // prev(2^63)
+        9_223_372_036_854_775_808.0, // 2^63
+        9_223_372_036_854_777_856.0, // next(2^63)
+        18_446_744_073_709_549_568.0, // prev(2^64)
+        18_446_744_073_709_551_616.0, // 2^64
+        18_446_744_073_709_555_712.0, // next(2^64)
+        1e19,
+        1e300,
+        // f32 boundaries seen from f64
+        f32::MAX as f64,
+        3.402_823_567_797_336_6e38, // f32::MAX + half an ulp (tie → inf)
+        3.402_823_567_797_336_5e38,
+        3.5e38,
+        f32::MIN_POSITIVE as f64,
+        1.175_494_280_757_364_3e-38, // just below the smallest f32 normal
+        1.401_298_464_324_817e-45,   // smallest f32 subnormal
+        7.006_492_321_624_085e-46,   // half of it (tie → 0)
+        7.006_492_321_624_087e-46,   // just above (→ smallest subnormal)
+        2.101_947_696_487_225_6e-45, // 1.5 × smallest (tie → 2 × smallest)
+        1e-50,
+        16_777_216.0 + 1.0,
+        16_777_218.0 + 1.0, // tie between 16777218 and 16777220 in f32
+        33_554_434.0,
+    ] {
+        both(v.to_bits());
+    }
+    g.sort();
+    g.dedup();
+    g
+}
+
+fn f32_grid() -> Vec<u32> {
+    let mut g: Vec<u32> = Vec::new();
+    let mut both = |b: u32| {
+        g.push(b);
+        g.push(b | (1 << 31));
+    };
+    for b in [
+        0u32, 1, 2, 0x007f_ffff, 0x0080_0000, 0x7f7f_ffff, 0x7f80_0000, 0x7f80_0001, 0x7fc0_0000, 0x7fc0_0001,
+        0x7fff_ffff, 0x7fa0_0000,
+    ] {
+        both(b);
+    }
+    for v in [
+        0.5f32,
+        0.999_999_94,
+        1.0,
+        1.5,
+        2.5,
+        0.1,
+        8_388_607.5,
+        16_777_215.0,
+        16_777_216.0,
+        16_777_218.0,
+        2_147_483_520.0, // prev(2^31)
+        2_147_483_648.0,
+        2_147_483_904.0, // next(2^31)
+        4_294_967_040.0, // prev(2^32)
+        4_294_967_296.0,
+        9_007_199_254_740_992.0,
+        9_223_371_487_098_961_920.0, // prev(2^63)
+        9_223_372_036_854_775_808.0,
+        18_446_742_974_197_923_840.0, // prev(2^64)
+        18_446_744_073_709_551_616.0,
+        1e30,
+    ] {
+        both(v.to_bits());
+    }
+    g.sort();
+    g.dedup();
+    g
+}
+
+fn blob_value_grid() -> Vec<Vec<u8>> {
+    vec![
+        vec![],
+        b"a".to_vec(),
+        b"ab".to_vec(),
+        b"abc".to_vec(),
+        b"b".to_vec(),
+        vec![0],
+        vec![0, 0],
+        vec![0x7f],
+        vec![0x80],
+        vec![0xff],
+        b"abcdefgh".to_vec(),
+        b"abcdefghi".to_vec(),
+        b"abcdefghj".to_vec(),
+        b"abcdefgh\x00".to_vec(),
+        vec![b'z'; 64],
+        vec![b'z'; 65],
+        vec![b'z'; 300],
+        {
+            let mut v = vec![b'z'; 300];
+            v[200] = b'y';
+            v
+        },
+        "é€😀".as_bytes().to_vec(),
+    ]
+}
+
+/// Every boundary value of every kind, in the line syntax.
+fn value_grid() -> Vec<String> {
+    let mut g = vec!["n".to_string(), "b:0".into(), "b:1".into()];
+    g.extend(i32_grid().iter().map(|v| format!("i:{}", v)));
+    g.extend(i64_value_grid().iter().map(|v| format!("I:{}", v)));
+    g.extend(u32_grid().iter().map(|v| format!("u:{}", v)));
+    g.extend(u64_grid().iter().map(|v| format!("U:{}", v)));
+    g.extend(f32_grid().iter().map(|v| format!("f:{}", v)));
+    g.extend(f64_grid().iter().map(|v| format!("d:{}", v)));
+    g.extend(blob_value_grid().iter().map(|v| format!("x:{}", hex_or_dash(v))));
+    g
+}
+
+fn rand_f64_bits(rng: &mut Rng) -> u64 {
+    match rng.below(6) {
+        0 => *rng.pick(&f64_grid()),
+        1 => rng.next_u64(),
+        2 => (rng.range(-70000, 70000) as f64 / 4.0).to_bits(),
+        3 => {
+            // an integer-valued or near-integer double of any magnitude
+            let e = rng.below(70) as i32;
+            let m = (rng.next_u64() >> 11) as f64 / (1u64 << 53) as f64 + 1.0;
+            let v = m * 2f64.powi(e);
+            (if rng.chance(1, 2) { v } else { -v }).to_bits()
+        }
+        4 => (rand_i64(rng) as f64).to_bits(),
+        _ => {
+            // neighbours of a grid value
+            let b = *rng.pick(&f64_grid());
+            b.wrapping_add(rng.range(-2, 2) as u64)
+        }
+    }
+}
+
+fn rand_f32_bits(rng: &mut Rng) -> u32 {
+    match rng.below(5) {
+        0 => *rng.pick(&f32_grid()),
+        1 => rng.next_u64() as u32,
+        2 => (rng.range(-70000, 70000) as f32 / 4.0).to_bits(),
+        3 => (rand_i64(rng) as f32).to_bits(),
+        _ => rng.pick(&f32_grid()).wrapping_add(rng.range(-2, 2) as u32),
+    }
+}
+
+fn rand_value(rng: &mut Rng) -> String {
+    match rng.below(16) {
+        0 => "n".into(),
+        1 => format!("b:{}", rng.below(2)),
+        2 | 3 => format!("i:{}", if rng.chance(1, 2) { *rng.pick(&i32_grid()) } else { rand_i64(rng) as i32 }),
+        4 | 5 | 6 => format!("I:{}", if rng.chance(1, 2) { *rng.pick(&i64_value_grid()) } else { rand_i64(rng) }),
+        7 => format!("u:{}", if rng.chance(1, 2) { *rng.pick(&u32_grid()) } else { rng.next_u64() as u32 }),
+        8 | 9 => format!("U:{}", if rng.chance(1, 2) { *rng.pick(&u64_grid()) } else { rand_i64(rng) as u64 }),
+        10 | 11 => format!("f:{}", rand_f32_bits(rng)),
+        12 | 13 | 14 => format!("d:{}", rand_f64_bits(rng)),
+        _ => format!("x:{}", hex_or_dash(&rand_blob(rng))),
+    }
+}
+
+fn kind_tag(v: &str) -> &'static str {
+    match v.as_bytes()[0] {
+        b'n' => "k-null",
+        b'b' => "k-bool",
+        b'i' => "k-int",
+        b'I' => "k-bigint",
+        b'u' => "k-uint",
+        b'U' => "k-biguint",
+        b'f' => "k-float",
+        b'd' => "k-double",
+        _ => "k-blob",
+    }
+}
+
+fn gen_serialize(rng: &mut Rng, scale: u64, cases: &mut Vec<Case>) {
+    let grid = value_grid();
+    for v in &grid {
+        cases.push(Case::new(format!("ser {}", v), &["ser", "grid", kind_tag(v), "nt"]));
+    }
+    for _ in 0..1500 * scale {
+        let v = rand_value(rng);
+        cases.push(Case::new(format!("ser {}", v), &["ser", "random", kind_tag(&v), "nt"]));
+    }
+    // write at every cursor residue, with and without room behind the value
+    for v in grid.iter().filter(|v| *v != "n") {
+        let c = rng.below(17);
+        let extra = *rng.pick(&[0u64, 0, 1, 3, 8]);
+        let t = if extra == 0 { "wr-exact-fit" } else { "wr-room-behind" };
+        cases.push(Case::new(format!("wr {} {} {}", v, c, extra), &["wr", "grid", t, kind_tag(v), "nt"]));
+    }
+    for _ in 0..1500 * scale {
+        let v = rand_value(rng);
+        if v == "n" {
+            continue;
+        }
+        let c = rng.below(33);
+        let extra = *rng.pick(&[0u64, 0, 1, 2, 7, 8, 9]);
+        let t = if extra == 0 { "wr-exact-fit" } else { "wr-room-behind" };
+        cases.push(Case::new(format!("wr {} {} {}", v, c, extra), &["wr", "random", t, kind_tag(&v), "nt"]));
+    }
+    // deserialize from buffers that hold arbitrary bytes (every bit pattern is some value) — long enough that the
+    // fixed-size kinds never run off the end (that is a slice panic in the code, outside this property)
+    for _ in 0..1500 * scale {
+        let (kname, kind) = *rng.pick(&KINDS[1..]);
+        let c = rng.below(12) as usize;
+        let (bs, tag) = if kind == DataTypeKind::Blob {
+            let mut bs = rng.bytes(c);
+            let t = match rng.below(3) {
+                0 => {
+                    bs.extend(Blob::from_unencoded_slice(&rand_blob(rng)).as_ref());
+                    bs.extend(rng.rbytes(0, 4));
+                    "de-valid"
+                }
+                1 => {
+                    let e = Blob::from_unencoded_slice(&rand_blob(rng));
+                    let e = e.as_ref();
+                    bs.extend(&e[..rng.below(e.len() as u64) as usize]);
+                    "de-truncated"
+                }
+                _ => {
+                    bs.extend(rng.rbytes(0, 12));
+                    "de-random"
+                }
+            };
+            (bs, t)
+        } else {
+            let need = align_up(c, kind.align()) + kind.fixed_size().unwrap_or(0);
+            let extra = rng.below(4) as usize;
+            let mut bs = rng.bytes(need + extra);
+            if kind == DataTypeKind::Bool && rng.chance(1, 2) {
+                bs[c] = rng.below(3) as u8;
+            }
+            (bs, "de-random")
+        };
+        cases.push(Case::new(format!("de {} {} {}", kname, c, hex_or_dash(&bs)), &["de", tag, kname, "nt"]));
+    }
+    cases.push(Case::new("de null 0 00".into(), &["de", "null", "nt"]));
+    cases.push(Case::new("de bool 0 -".into(), &["de", "bool", "nt"]));
+}
+
+fn gen_cast(rng: &mut Rng, scale: u64, cases: &mut Vec<Case>) {
+    // exhaustive: every grid value to every kind
+    for v in value_grid() {
+        for (kname, _) in KINDS.iter() {
+            let t = format!("to-{}", kname);
+            cases.push(Case::new(format!("cast {} {}", v, kname), &["cast", "grid", kind_tag(&v), &t, "nt"]));
+        }
+    }
+    for _ in 0..6000 * scale {
+        let v = rand_value(rng);
+        let (kname, _) = *rng.pick(&KINDS);
+        let t = format!("to-{}", kname);
+        cases.push(Case::new(format!("cast {} {}", v, kname), &["cast", "random", kind_tag(&v), &t, "nt"]));
+    }
+}
+
+/// A small grid on which pairs and triples are exhaustive: every kind, every boundary that matters for
+/// comparison (2^24, 2^53 ± 1, 2^63, 2^64, ±0.0, NaNs, ±inf, subnormals, empty / prefix / long blobs, NULL).
+fn compare_grid() -> Vec<String> {
+    let mut g: Vec<String> = vec!["n".into(), "b:0".into(), "b:1".into()];
+    for v in [0i32, 1, -1, i32::MIN, i32::MAX, 16777216, 16777217, -16777217] {
+        g.push(format!("i:{}", v));
+    }
+    let p53 = 1i64 << 53;
+    for v in [0i64, 1, -1, i64::MIN, i64::MAX, i64::MAX - 1, 16777217, p53 - 1, p53, p53 + 1, p53 + 2, -p53, -p53 - 1, 1 << 62] {
+        g.push(format!("I:{}", v));
+    }
+    for v in [0u32, 1, u32::MAX, 16777217] {
+        g.push(format!("u:{}", v));
+    }
+    for v in [0u64, 1, u64::MAX, u64::MAX - 1, 1 << 53, (1 << 53) + 1, 1 << 63, (1 << 63) + 1, i64::MAX as u64] {
+        g.push(format!("U:{}", v));
+    }
+    for v in [0.0f32, -0.0, 1.0, -1.0, 0.5, 16777216.0, f32::MAX, f32::MIN_POSITIVE, f32::INFINITY, f32::NEG_INFINITY, 0.1] {
+        g.push(format!("f:{}", v.to_bits()));
+    }
+    g.push(format!("f:{}", 0x7fc0_0000u32));
+    g.push(format!("f:{}", 0xffc0_0001u32));
+    g.push(format!("f:{}", 1u32));
+    for v in [
+        0.0f64,
+        -0.0,
+        1.0,
+        -1.0,
+        0.5,
+        0.1,
+        0.1f32 as f64,
+        16777217.0,
+        9007199254740992.0,
+        9007199254740994.0,
+        -9007199254740992.0,
+        9223372036854775808.0,
+        -9223372036854775808.0,
+        18446744073709551616.0,
+        f64::MAX,
+        f64::MIN_POSITIVE,
+        f64::INFINITY,
+        f64::NEG_INFINITY,
+    ] {
+        g.push(format!("d:{}", v.to_bits()));
+    }
+    g.push(format!("d:{}", 0x7ff8_0000_0000_0000u64));
+    g.push(format!("d:{}", 0xfff8_0000_0000_0001u64));
+    g.push(format!("d:{}", 0x7ff0_0000_0000_0001u64));
+    g.push(format!("d:{}", 1u64));
+    g.push(format!("d:{}", (1u64 << 63) | 1));
+    for b in [&b""[..], b"a", b"ab", b"b", &[0u8][..], &[0xffu8][..], b"abcdefgh", b"abcdefghi", b"abcdefghj"] {
+        g.push(format!("x:{}", hex_or_dash(b)));
+    }
+    g.push(format!("x:{}", hex(&vec![b'z'; 300])));
+    g
+}
+
+fn pair_tags(a: &str, b: &str) -> Vec<String> {
+    let mut t = vec!["pair".to_string(), "nt".to_string()];
+    t.push(format!("{}~{}", &kind_tag(a)[2..], &kind_tag(b)[2..]));
+    t
+}
+
+fn gen_compare(rng: &mut Rng, scale: u64, cases: &mut Vec<Case>) {
+    let grid = compare_grid();
+    // exhaustive pairs on the grid
+    for a in &grid {
+        cases.push(Case::new(format!("hash {}", a), &["hash", "grid", kind_tag(a), "nt"]));
+        for b in &grid {
+            let tags = pair_tags(a, b);
+            let mut tr: Vec<&str> = tags.iter().map(|s| s.as_str()).collect();
+            tr.push("grid");
+            cases.push(Case::new(format!("pair {} {}", a, b), &tr));
+        }
+    }
+    // exhaustive triples on the numeric part of the grid would be ~10^5; take all triples of a sub-grid that holds
+    // one representative of every phenomenon, and random triples of the full grid
+    let sub: Vec<&String> = grid
+        .iter()
+        .filter(|v| {
+            matches!(
+                v.as_str(),
+                "n" | "b:0" | "b:1" | "i:0" | "i:1" | "I:9007199254740992" | "I:9007199254740993" | "I:9223372036854775807"
+                    | "U:9007199254740993" | "U:18446744073709551615" | "U:9223372036854775808" | "f:0" | "f:2147483648"
+                    | "f:2143289344" | "d:0" | "d:9223372036854775808" | "d:4845873199050653696" | "d:9221120237041090560"
+                    | "d:9218868437227405312" | "d:4890909195324358656" | "x:-" | "x:61" | "x:6162"
+            )
+        })
+        .collect();
+    for a in &sub {
+        for b in &sub {
+            for c in &sub {
+                cases.push(Case::new(format!("laws {} {} {}", a, b, c), &["laws", "laws-subgrid", "nt"]));
+            }
+        }
+    }
+    for _ in 0..3000 * scale {
+        let (a, b, c) = (rng.pick(&grid), rng.pick(&grid), rng.pick(&grid));
+        cases.push(Case::new(format!("laws {} {} {}", a, b, c), &["laws", "laws-grid-random", "nt"]));
+    }
+    // random pairs: a random value against a related one
+    let big = value_grid();
+    for _ in 0..8000 * scale {
+        let a = if rng.chance(1, 2) { rng.pick(&big).clone() } else { rand_value(rng) };
+        let b = match rng.below(5) {
+            0 => a.clone(),
+            1 => rng.pick(&big).clone(),
+            2 => rand_value(rng),
+            _ => related_value(rng, &a),
+        };
+        let tags = pair_tags(&a, &b);
+        let mut tr: Vec<&str> = tags.iter().map(|s| s.as_str()).collect();
+        tr.push("random");
+        cases.push(Case::new(format!("pair {} {}", a, b), &tr));
+    }
+    for _ in 0..1500 * scale {
+        let a = rand_value(rng);
+        let b = related_value(rng, &a);
+        let c = if rng.chance(1, 2) { related_value(rng, &b) } else { rand_value(rng) };
+        cases.push(Case::new(format!("laws {} {} {}", a, b, c), &["laws", "laws-random", "nt"]));
+    }
+    for _ in 0..500 * scale {
+        let v = rand_value(rng);
+        cases.push(Case::new(format!("hash {}", v), &["hash", "random", kind_tag(&v), "nt"]));
+    }
+}
+
+fn kind_name_of(v: &str) -> &'static str {
+    match v.as_bytes()[0] {
+        b'n' => "null",
+        b'b' => "bool",
+        b'i' => "int",
+        b'I' => "bigint",
+        b'u' => "uint",
+        b'U' => "biguint",
+        b'f' => "float",
+        b'd' => "double",
+        _ => "blob",
+    }
+}
+
+fn same_kind_value(rng: &mut Rng, kind: &str, grid: &[String]) -> String {
+    let pool: Vec<&String> = grid.iter().filter(|v| kind_name_of(v) == kind).collect();
+    if !pool.is_empty() && rng.chance(2, 3) {
+        return (*rng.pick(&pool)).clone();
+    }
+    match kind {
+        "bool" => format!("b:{}", rng.below(2)),
+        "int" => format!("i:{}", rand_i64(rng) as i32),
+        "bigint" => format!("I:{}", rand_i64(rng)),
+        "uint" => format!("u:{}", rng.next_u64() as u32),
+        "biguint" => format!("U:{}", rand_i64(rng) as u64),
+        "float" => format!("f:{}", rand_f32_bits(rng)),
+        "double" => format!("d:{}", rand_f64_bits(rng)),
+        _ => format!("x:{}", hex_or_dash(&rand_blob(rng))),
+    }
+}
+
+/// Key comparison as the B+tree does it: every same-kind pair of the comparison grid as a single key, and random
+/// composite keys (so that alignment padding between key columns and "first difference decides" are exercised).
+fn gen_keys(rng: &mut Rng, scale: u64, cases: &mut Vec<Case>) {
+    let grid = compare_grid();
+    for a in &grid {
+        for b in &grid {
+            let (ka, kb) = (kind_name_of(a), kind_name_of(b));
+            if ka == kb && ka != "null" {
+                let t = format!("key-{}", ka);
+                cases.push(Case::new(format!("key {} {} {}", ka, a, b), &["key", "key-single", "grid", &t, "nt"]));
+            }
+        }
+    }
+    // kind mismatch / NULL keys are refused when the tuple is built
+    cases.push(Case::new("key int n i:1".into(), &["key", "key-refused", "nt"]));
+    cases.push(Case::new("key int i:1 I:1".into(), &["key", "key-refused", "nt"]));
+    cases.push(Case::new("key blob x:61 n".into(), &["key", "key-refused", "nt"]));
+    let kinds = ["bool", "int", "bigint", "uint", "biguint", "float", "double", "blob"];
+    for _ in 0..3000 * scale {
+        let n = 1 + rng.below(4) as usize;
+        let ks: Vec<&str> = (0..n).map(|_| *rng.pick(&kinds)).collect();
+        let a: Vec<String> = ks.iter().map(|k| same_kind_value(rng, k, &grid)).collect();
+        // the partner shares a prefix of columns, so that later columns get to decide
+        let share = rng.below(n as u64 + 1) as usize;
+        let b: Vec<String> = ks
+            .iter()
+            .enumerate()
+            .map(|(i, k)| {
+                if i < share {
+                    a[i].clone()
+                } else if rng.chance(1, 2) {
+                    related_value_same_kind(rng, &a[i], k, &grid)
+                } else {
+                    same_kind_value(rng, k, &grid)
+                }
+            })
+            .collect();
+        let t = if n == 1 { "key-single" } else { "key-composite" };
+        let st = format!("key-shared{}", share.min(3));
+        cases.push(Case::new(
+            format!("key {} {} {}", ks.join(","), a.join(","), b.join(",")),
+            &["key", t, &st, "random", "nt"],
+        ));
+    }
+}
+
+/// SQL sub-mode: single-column tables of values that SQL literals can express exactly (no NaN, no -0.0, no
+/// infinities, |integers| < 2^62, text of ASCII letters), with duplicates, NULLs, integers around 2^53 and
+/// prefix-related strings.
+fn gen_sql(rng: &mut Rng, scale: u64, cases: &mut Vec<Case>) {
+    let p53 = 1i64 << 53;
+    let ints: Vec<i64> = vec![0, 1, -1, 2, 7, -7, 16777216, 16777217, p53 - 1, p53, p53 + 1, p53 + 2, -p53, -p53 - 1, (1 << 61) + 1, 1 << 61];
+    let doubles: Vec<f64> = vec![0.0, 1.0, -1.0, 0.5, 1.5, -1.5, 0.25, 2.5, 16777217.0, 9007199254740992.0, 100.125, 1e20, -1e20, 0.1, 0.2, 0.30000000000000004];
+    let texts: Vec<&str> = vec!["", "a", "ab", "abc", "abd", "b", "B", "abcdefgh", "abcdefghi", "abcdefghj", "zzzzzzzzzzzzzzzzzzzzzzzz", "a b"];
+    let kinds = ["bool", "int", "bigint", "uint", "biguint", "float", "double", "blob"];
+    for _ in 0..250 * scale {
+        let k = *rng.pick(&kinds);
+        let n = 2 + rng.below(9) as usize;
+        let mut vals: Vec<String> = Vec::new();
+        for _ in 0..n {
+            if rng.chance(1, 8) {
+                vals.push("n".into());
+                continue;
+            }
+            if !vals.is_empty() && rng.chance(1, 5) {
+                vals.push(rng.pick(&vals).clone()); // duplicate
+                continue;
+            }
+            vals.push(match k {
+                "bool" => format!("b:{}", rng.below(2)),
+                "int" => format!("i:{}", if rng.chance(1, 2) { *rng.pick(&ints[..8]) } else { rng.range(-50, 50) }),
+                "bigint" => format!("I:{}", if rng.chance(2, 3) { *rng.pick(&ints) } else { rng.range(-(1 << 60), 1 << 60) }),
+                "uint" => format!("u:{}", if rng.chance(1, 2) { rng.pick(&ints[..8]).unsigned_abs() } else { rng.below(1 << 32) }),
+                "biguint" => format!("U:{}", if rng.chance(2, 3) { rng.pick(&ints).unsigned_abs() } else { rng.below(1 << 61) }),
+                "float" => format!("f:{}", ((rng.range(-4000, 4000) as f32) / 8.0).to_bits()),
+                "double" => format!("d:{}", if rng.chance(2, 3) { *rng.pick(&doubles) } else { rng.range(-100000, 100000) as f64 / 16.0 }.to_bits()),
+                _ => format!("x:{}", hex_or_dash(rng.pick(&texts).as_bytes())),
+            });
+        }
+        if vals.iter().any(|v| v == "d:9223372036854775808" || v == "f:2147483648") {
+            continue; // -0.0 cannot be written as a SQL literal
+        }
+        let kt = format!("sql-{}", k);
+        cases.push(Case::new(format!("sql {} {}", k, vals.join(",")), &["sql", &kt, "nt"]));
+    }
+}
+
+fn related_value_same_kind(rng: &mut Rng, a: &str, kind: &str, grid: &[String]) -> String {
+    for _ in 0..8 {
+        let r = related_value(rng, a);
+        if kind_name_of(&r) == kind {
+            return r;
+        }
+    }
+    same_kind_value(rng, kind, grid)
+}
+
+/// A value that is numerically equal or adjacent to `a` but of another kind / encoding where possible.
+fn related_value(rng: &mut Rng, a: &str) -> String {
+    let Some(v) = parse_value(a) else { return a.to_string() };
+    let as_i128: Option<i128> = match &v {
+        DataType::Int(i) => Some(i.0 as i128),
+        DataType::BigInt(i) => Some(i.0 as i128),
+        DataType::UInt(i) => Some(i.0 as i128),
+        DataType::BigUInt(i) => Some(i.0 as i128),
+        DataType::Float(f) if f.0.is_finite() && f.0.abs() < 1e19 => Some(f.0 as i128),
+        DataType::Double(f) if f.0.is_finite() && f.0.abs() < 1e19 => Some(f.0 as i128),
+        _ => None,
+    };
+    match (&v, as_i128) {
+        (DataType::Blob(b), _) => {
+            let d = b.data().unwrap_or(&[]).to_vec();
+            format!("x:{}", hex_or_dash(&related_blob(rng, &d).0))
+        }
+        (_, Some(n)) => {
+            let n = n + rng.range(-1, 1) as i128;
+            match rng.below(6) {
+                0 if n >= i32::MIN as i128 && n <= i32::MAX as i128 => format!("i:{}", n),
+                1 if n >= 0 && n <= u32::MAX as i128 => format!("u:{}", n),
+                2 if n >= 0 && n <= u64::MAX as i128 => format!("U:{}", n),
+                3 => format!("f:{}", (n as f32).to_bits()),
+                4 => format!("d:{}", (n as f64).to_bits()),
+                _ if n >= i64::MIN as i128 && n <= i64::MAX as i128 => format!("I:{}", n),
+                _ => format!("d:{}", (n as f64).to_bits()),
+            }
+        }
+        (DataType::Double(f), None) => match rng.below(3) {
+            0 => format!("f:{}", (f.0 as f32).to_bits()),
+            1 => format!("d:{}", f.0.to_bits() ^ (1 << 63)),
+            _ => format!("d:{}", f.0.to_bits().wrapping_add(rng.range(-1, 1) as u64)),
+        },
+        (DataType::Float(f), None) => match rng.below(3) {
+            0 => format!("d:{}", (f.0 as f64).to_bits()),
+            1 => format!("f:{}", f.0.to_bits() ^ (1 << 31)),
+            _ => format!("f:{}", f.0.to_bits().wrapping_add(rng.range(-1, 1) as u32)),
+        },
+        _ => rand_value(rng),
+    }
+}
+
+/// `Generated/Value.lean`: the constants and tables of the type system as the code defines them, obtained by
+/// evaluating the code (kind discriminants, sizes, alignments, `MAX_VARINT_LEN`, key offset, cast matrix).
 pub fn generated() -> Option<(&'static str, String)> {
-    None
+    let mut s = String::new();
+    s.push_str("/- REGENERATED on every run by `axh extract` from values evaluated out of /repo. Do not edit. -/\n");
+    s.push_str("import AxVerif.Model.Value\n");
+    s.push_str("namespace AxVerif.Generated\n\n");
+    s.push_str("def valueParams : AxVerif.Value.Params :=\n");
+    s.push_str(&format!("  {{ maxVarintLen := {}\n", hooks::max_varint_len()));
+    let mut kinds = Vec::new();
+    let mut all = Vec::new();
+    for d in 0u8..=255 {
+        if let Some(k) = DataTypeKind::from_repr(d) {
+            let size = match k.fixed_size() {
+                Some(n) => format!("some {}", n),
+                None => "none".to_string(),
+            };
+            kinds.push(format!(
+                "(\"{}\", {}, {}, {}, {})",
+                k.name().to_lowercase(),
+                k.as_u8(),
+                size,
+                k.align(),
+                k.is_numeric()
+            ));
+            all.push(k);
+        }
+    }
+    s.push_str(&format!("    kinds := [{}]\n", kinds.join(", ")));
+    s.push_str(&format!("    keysOffset1 := {}\n", hooks::keys_offset(1)));
+    let sample = |k: DataTypeKind| -> DataType {
+        match k {
+            DataTypeKind::Null => DataType::Null,
+            DataTypeKind::Bool => DataType::Bool(true.into()),
+            DataTypeKind::Int => DataType::Int(Int32(1)),
+            DataTypeKind::BigInt => DataType::BigInt(Int64(1)),
+            DataTypeKind::UInt => DataType::UInt(UInt32(1)),
+            DataTypeKind::BigUInt => DataType::BigUInt(UInt64(1)),
+            DataTypeKind::Float => DataType::Float(Float32(1.0)),
+            DataTypeKind::Double => DataType::Double(Float64(1.0)),
+            DataTypeKind::Blob => DataType::Blob(Blob::from_unencoded_slice(b"a")),
+        }
+    };
+    let mut ok = Vec::new();
+    for a in &all {
+        for b in &all {
+            if sample(*a).try_cast(*b).is_ok() {
+                ok.push(format!("({}, {})", a.as_u8(), b.as_u8()));
+            }
+        }
+    }
+    s.push_str(&format!("    castOk := [{}] }}\n", ok.join(", ")));
+    s.push_str("\nend AxVerif.Generated\n");
+    Some(("Value.lean", s))
 }
